@@ -9,7 +9,7 @@ from ..harness import Cfg, Obs
 from ..jobs import Job, register
 from ..refsem import Fail, RefResult, Val
 from ..spec import BASE_EXC, E1, E2, OK, RET_NONE, RET_ZERO, In, Node, OneOf, Rec, Spec, Sw
-from .common import doc, engine_harness
+from .common import auto_parts, doc, engine_harness
 
 SYMS = ["caller input x", "duration of every node", "outcome kind of fallible nodes", "switch labels",
         "recurrent want", "task-set order"]
@@ -30,6 +30,8 @@ def _reg(prop: str, name: str, f: Callable[[], Spec], verdict: Any, *, goals: Tu
          tier: str = "quick", judge_hang: bool = False, beh_kw: Optional[Dict[str, Any]] = None,
          cfg_fn: Any = None, budget: float = 300, parts: Any = None, extra_syms: Tuple[str, ...] = (),
          rev: bool = True) -> None:
+    if parts is None:
+        parts = auto_parts(f(), rev=rev)
     register(Job(prop, name, engine_harness(f, verdict, judge_hang=judge_hang, beh_kw=beh_kw, cfg_fn=cfg_fn, rev=rev),
                  tier=tier, budget_s=budget, goals=goals, parts=parts,
                  doc=doc(name, list(SYMS) + list(extra_syms))))
@@ -65,6 +67,7 @@ for name, f, goals in [
     ("oneof_nested", C.oneof_nested, ("oneof_fallback", "oneof_all_failed")),
     ("oneof_chained", C.oneof_chained, ("oneof_fallback",)),
     ("oneof_with_switch", C.oneof_with_switch, ("oneof_fallback",)),
+    ("oneof_with_switch_deep", C.oneof_with_switch_deep, ("oneof_fallback",)),
     ("oneof_diamond", C.oneof_diamond, ("oneof_fallback",)),
     ("rec_simple", lambda: C.rec_simple(2, False, True), ("reiterated", "ref_fail_rec")),
     ("rec_two_scopes", C.rec_two_scopes, ("reiterated",)),
@@ -226,6 +229,7 @@ for name, f, goals in [
     ("oneof_sibling", C.oneof_sibling, ("oneof_fallback",)),
     ("oneof_chained", C.oneof_chained, ("oneof_fallback",)),
     ("oneof_with_switch", C.oneof_with_switch, ("oneof_fallback",)),
+    ("oneof_with_switch_deep", C.oneof_with_switch_deep, ("oneof_fallback",)),
     ("oneof_shared_dep", C.oneof_shared_dep, ()),
     ("oneof_diamond", C.oneof_diamond, ("oneof_fallback",)),
 ]:
